@@ -69,7 +69,25 @@ class Schema:
         self.unique_indexes: List[Tuple[str, List[str], int]] = []
         self.unparsed: List[Tuple[int, str]] = []
         self.text_of: Dict[int, str] = {}       # id(call node) -> statement text (a literal, or a name that folds to a string constant)
+        # `for stmt in STATEMENTS: self.sql(stmt)` over a constant tuple of texts: every text is a statement at that call
+        loop_texts: Dict[int, List[str]] = {}
+        if repo is not None:
+            for lp in ast.walk(m.tree):
+                if isinstance(lp, ast.For) and isinstance(lp.target, ast.Name):
+                    try:
+                        vals = repo.fold(lp.iter, m, None, {})
+                    except Exception:
+                        continue
+                    if isinstance(vals, (tuple, list)) and vals and all(isinstance(v, str) for v in vals):
+                        for c in ast.walk(lp):
+                            if isinstance(c, ast.Call) and isinstance(c.func, ast.Attribute) and c.func.attr in ("sql", "execute", "executescript") \
+                                    and c.args and isinstance(c.args[0], ast.Name) and c.args[0].id == lp.target.id:
+                                loop_texts[id(c)] = list(vals)
         for n in ast.walk(m.tree):
+            if id(n) in loop_texts:
+                for text in loop_texts[id(n)]:
+                    self._stmt(text, n)     # type: ignore
+                continue
             if isinstance(n, ast.Call) and isinstance(n.func, ast.Attribute) and n.func.attr in ("sql", "execute", "executemany", "executescript") \
                     and n.args:
                 text = None
